@@ -13,7 +13,7 @@ REQUIRED = ["owner_identified", "bus_carries_owner", "sel_fanout", "optional_def
 
 
 def n_cases(tier):
-    return 240 if tier == "quick" else 3600
+    return 480 if tier == "quick" else 6000
 
 
 def gen_case(rng, tier, idx):
